@@ -153,14 +153,28 @@ def pmap(fn, items, seed: int = 0, init=None, jobs: int | None = None, chunksize
                 raise HarnessError(err)
             out[i] = r
         return out
+    # concurrent.futures notices a worker that died (BrokenProcessPool); multiprocessing.Pool would wait for ever
+    import concurrent.futures as cf
     ctx = mp.get_context('fork')
-    with ctx.Pool(min(jobs, n), initializer=_worker_boot, initargs=(init,)) as pool:
-        for idx, r, err in pool.imap_unordered(
-                _call, [(i, fn, items[i]) for i in order], chunksize=chunksize):
-            if err:
-                pool.terminate()
-                raise HarnessError(err)
-            out[idx] = r
+    work = [(i, fn, items[i]) for i in order]
+    try:
+        with cf.ProcessPoolExecutor(min(jobs, n), mp_context=ctx, initializer=_worker_boot, initargs=(init,)) as ex:
+            if n <= 20000 and chunksize == 1:
+                futs = [ex.submit(_call, w) for w in work]
+                for f in cf.as_completed(futs):
+                    idx, r, err = f.result()
+                    if err:
+                        for g in futs:
+                            g.cancel()
+                        raise HarnessError(err)
+                    out[idx] = r
+            else:
+                for idx, r, err in ex.map(_call, work, chunksize=max(chunksize, n // (jobs * 64) or 1)):
+                    if err:
+                        raise HarnessError(err)
+                    out[idx] = r
+    except cf.process.BrokenProcessPool as e:
+        raise HarnessError(f'a worker process died ({e}); no verdict')
     return out
 
 
